@@ -162,21 +162,18 @@ theorem only_dst_touched_partial (pm : Nat → Bytes → Bool) (lib : Bytes → 
     intro t ht
     exact ⟨h t.1 (List.mem_map.mpr ⟨t, ht, rfl⟩), hg t.1 (List.mem_map.mpr ⟨t, ht, rfl⟩)⟩
 
-/-- **Full statement** without the guard (false, K-C19-5) -/
+/-- **Full statement** without the guard.  It was false until `--bundle` with `--sync` was rejected (K-C19-5, fixed by
+    4497624: a sync *bundle* onto one of its inputs left `<dst>.bak`); whether every remaining plan satisfies
+    `noSyncBundle` is not proved here, the harness checks the guard on every generated invocation. -/
 def only_dst_touched_full : Prop :=
   ∀ (pm : Nat → Bytes → Bool) (lib : Bytes → Bytes → Option Bytes) (inv : Inv) (fs : Fs) (q : Path),
     (∀ t ∈ (effects pm lib inv fs).tasks, q ≠ t.dst) → (effects pm lib inv fs).fs.get q = fs.get q
 
-/-- K-C19-5: `minify -b --sync --exclude=a.txt -o b.css a.txt b.css` — the merged task is a sync copy, which
-    returns before the clean-up: `b.css.bak` is left behind. -/
-theorem only_dst_touched_counterexample : ¬ only_dst_touched_full := by
-  intro h
-  have := h (fun _ s => s == strBytes "a.txt") (fun _ b => some b)
-    { inputs := [strBytes "a.txt", strBytes "b.css"], output := strBytes "b.css", bundle := true, sync := true,
-      filters := [(false, 0)] }
+/-- regression (K-C19-5, fixed by 4497624): `minify -b --sync --exclude=a.txt -o b.css a.txt b.css` is rejected -/
+example : plan (fun _ s => s == strBytes "a.txt")
     { files := [(strBytes "a.txt", strBytes "hello"), (strBytes "b.css", strBytes "b{}")] }
-    (strBytes "b.css.bak") (by decide +kernel)
-  revert this
+    { inputs := [strBytes "a.txt", strBytes "b.css"], output := strBytes "b.css", bundle := true, sync := true,
+      filters := [(false, 0)] } = none := by
   decide +kernel
 
 /-- regression (K-C19-1, fixed by 44ee05b): `minify -o a.css a.css` next to an unrelated `a.css.bak` is
